@@ -168,7 +168,21 @@ def handle (op : String) (args : List Sexp) : R Sexp := do
       pure (failList (
         Spec.c07Clauses { p := p, subject := k, attrs := attrs } info ++ Spec.c05CsrClauses info ++
         Spec.c01Clauses k.alg der (fun _ => none) ++
-        Spec.clause "C04:canonical-der" (Spec.csrCanonical der)))
+        Spec.clause "C04:canonical-der" (Spec.csrCanonical der) ++
+        -- caller-supplied attribute values embedded byte for byte (as many times as supplied)
+        Spec.clause "C04:attribute-values-verbatim"
+          (match Spec.decodeCsrInfo info with
+           | some c => attrs.all (fun a =>
+               (c.attrs.filter (fun d => d.oid == a.oid && d.values == a.values)).length ≥
+               (attrs.filter (fun b => b.oid == a.oid && b.values == a.values)).length)
+           | none => false) ++
+        Spec.clause "C04:custom-content-verbatim" (p.customExts.all (fun e =>
+          match Spec.decodeCsrInfo info with
+          | some c => c.attrs.any (fun d =>
+              match Spec.decodeExtensionRequestAll d.values with
+              | some exts => exts.any (fun x => x.oid == e.oid && x.value == .opaque e.content)
+              | none => false)
+          | none => false))))
   | "spec-csr-issue", [csr, cert] => do
     -- the issued certificate against the request it was issued from (C06), artefacts only
     let csr ← csr.asBytes
